@@ -363,7 +363,7 @@ def split_angle(texts):
 DEFAULT_CFG = {
     'flags': {'unix'},
     'kv': {('target_os', 'linux'), ('target_pointer_width', '64'), ('target_family', 'unix'),
-           ('feature', 'executor'), ('feature', 'signals'), ('feature', 'stream'), ('feature', 'block_on')},
+           ('feature', 'executor'), ('feature', 'signals'), ('feature', 'stream'), ('feature', 'block_on'), ('feature', 'futures-io')},
 }
 
 
